@@ -11,7 +11,9 @@ RULE = ('1-3 stream transfers sharing a manager (uploads from seekable / non-see
         'user streams by the submission stage minus bytes whose part/put request returned <= (max_in_memory_upload_chunks + '
         'max_submission_concurrency) * max(chunksize, threshold), no single read larger than max(chunksize, threshold); (non-seekable '
         'downloads) no GetObject for part i begins while the lowest part whose body has not reached EOF is L with i-L >= '
-        'max_in_memory_download_chunks; pending destination writes (counting IO executor) <= max_io_queue_size; evaluated on the '
+        'max_in_memory_download_chunks, and the response data alive inside the library (lifetime-tracked body chunks, sampled at every '
+        'body read, incl. runs where later parts are retried while the lowest part is held) <= window parts + pending writes + one '
+        'chunk per request/IO thread; pending destination writes (counting IO executor) <= max_io_queue_size; evaluated on the '
         'fault/cancel-free prefix of each run; thorough adds real-size (1 MiB chunk) runs with a tracemalloc peak as a coarse '
         'cross-check; non-trivial = a stream transfer ran multipart/ranged and a monitor evaluated; distinct = (shape, interleaving '
         'signature)')
@@ -42,6 +44,24 @@ def gen_cases(tier, seed):
             spec['plan']['faults'] = [{'at': f't0/s3:GetObject:{C * rng.randrange(0, 3)}#0', 'phase': 'body', 'bytes': rng.randrange(0, C),
                                        'kind': 'connreset', 'tag': 'FAULT-r'}]
         cases.append(spec)
+    # retries while the lowest part is slow: later parts deliver (part of) their data, hit a retryable stream error and are
+    # requested again - the re-delivered data must not pile up beside the copy already awaiting its turn
+    for i in range(40 if quick else 400):
+        C = 8
+        win = rng.choice([2, 3, 4])
+        attempts = rng.choice([3, 5, 6])
+        nparts = win + rng.choice([1, 2, 3])
+        cfg = dict(multipart_threshold=C, multipart_chunksize=C, io_chunksize=rng.choice([4, 8]), max_request_concurrency=rng.choice([2, 3, 4]),
+                   max_in_memory_download_chunks=win, max_io_queue_size=rng.choice([1, 2]), num_download_attempts=attempts)
+        faults = []
+        for part in range(1, win):
+            if rng.random() < 0.8:
+                for j in range(rng.randrange(1, attempts)):
+                    faults.append({'at': f't0/s3:GetObject:{part * C}#{j}', 'phase': 'body', 'bytes': rng.choice([C, C, 4]),
+                                   'kind': rng.choice(['connreset', 'timeout', 'readtimeout']), 'tag': f'FAULT-r{part}-{j}'})
+        cases.append({'seed': rng.randrange(1 << 30), 'config': cfg, 'family': 'retry-pileup',
+                      'transfers': [{'kind': 'download', 'dst': rng.choice(['nonseekable', 'fifo']), 'size': nparts * C - rng.choice([0, 3])}],
+                      'plan': {'faults': faults, 'gate': {'match': 't0/s3:GetObject:0#0', 'phase': rng.choice(['before', 'after'])}}})
     # several non-seekable ranged downloads competing for a tiny window, with a thread preempted at each statement of the
     # sliding-window semaphore (and the defer-queue submission) until the others have run as far as they can
     from .. import windows
